@@ -12,7 +12,7 @@ CFG = {
     "prop_file": "Properties/C13.v",
     "run_modules": ["Verif.C13.Run"],
     "coq_dirs": ["C13"],
-    "n": {"quick": 2400, "thorough": 150000},
+    "n": {"quick": 2400, "thorough": 60000},
     "shard": 150,
     "max_report": 4,
     "level": "proof",
@@ -65,7 +65,7 @@ CFG = {
                  "them, writes through them reach the Go value, a failing field assignment is a no-op (16 theorems, no axioms). Modelled and "
                  "checked by correspondence only: ExportTo's typed cache. Not expressible in Gallina and therefore only tested: reflect "
                  "addressability and panics (7 findings found there, 6 repaired, C13-F25 open). Tied to /repo on every run by 2400 (quick) / "
-                 "150000 (thorough) generated values, graphs, export targets and histories."),
+                 "60000 (thorough) generated values, graphs, export targets and histories."),
         "note": ("trusted: Coq kernel + vm_compute; the hand transcription coq/C13/Model.v; the Go harness (its deep-equality and pointer "
                  "identity oracle); reflect, unsafe and the Go runtime are opaque; implementation covered by correspondence, not by proof"),
         "technique": "Rocq proofs over an executable heap/wrapper model (lens laws, cache invariant by induction over histories, fuelled graph export) + differential correspondence against /repo via vm_compute",
